@@ -65,8 +65,10 @@ def gen_one(rng, tier):
         if k < 0.72:
             ops.append(['set', gen_key(rng, alphabet, maxdepth),
                         gen_value(rng, alphabet)])
-        elif k < 0.88:
+        elif k < 0.84:
             ops.append(['layer_set', gen_key(rng, alphabet, 3)])
+        elif k < 0.88:
+            ops.append(['reassign', gen_key(rng, alphabet, 3)])
         else:
             ops.append(['clear', None if rng.random() < 0.3
                         else gen_key(rng, alphabet, 2)])
@@ -74,7 +76,7 @@ def gen_one(rng, tier):
 
 
 def gen_cases(tier, seed):
-    n = 2000 if tier == 'quick' else 16 * 8000
+    n = 1500 if tier == 'quick' else 16 * 6000
     for i in range(n):
         yield gen_one(random.Random(f'C11/{seed}/{tier}/{i}'), tier)
 
@@ -89,6 +91,10 @@ def run_case(case):
                 drv.set(op[1], op[2])
             elif name == 'layer_set':
                 if not drv.layer_set(op[1]):
+                    res.stats['ops_skipped'] += 1
+                    continue
+            elif name == 'reassign':
+                if not drv.reassign(op[1]):
                     res.stats['ops_skipped'] += 1
                     continue
             elif name == 'clear':
